@@ -12,7 +12,7 @@ import (
 )
 
 func init() {
-	register("C19", "Structural clauses of metadata-only transfer, decided on all paths of the receive loop: the id counter advances for every announced entry including the skipped listing-file name (finding F1, fixed); in metadata mode every announced entry other than the listing file's own name is framed into the buffer before the loop continues; a frame is alloc(size+4) with the 32-bit little-endian size written to the first four bytes and the stat marshalled (checked) into the rest of the same slice; ids are registered only for selected regular files; an entry the selector rejected is never forwarded to the disk writer, pending ancestors are replayed before a selected entry and the pending list is cleared; the listing file is written only after the checked group wait, after removing any previous entry of that name, with write and close checked. Does not decide the chunk arithmetic of the buffer, the ancestor stack for all tree shapes, or removal of stale entries.", runC19)
+	register("C19", "Structural clauses of metadata-only transfer, decided on all paths of the receive loop: the id counter advances for every announced entry including the skipped listing-file name (finding F1, fixed); in metadata mode every announced entry other than the listing file's own name is framed into the buffer before the loop continues; a frame is alloc(size+4) with the 32-bit little-endian size written to the first four bytes and the stat marshalled (checked) into the rest of the same slice; ids are registered only for selected regular files; an entry the selector rejected is never forwarded to the disk writer, pending ancestors are replayed before a selected entry and the pending list is cleared; the listing file is written only after the checked group wait, after removing any previous entry of that name, with write and close checked. The pending-ancestors stack top is inspected in every iteration before anything is pushed. Does not decide the chunk arithmetic of the buffer, the ancestor stack for all tree shapes, or removal of stale entries.", runC19)
 }
 
 func runC19(c *Ctx) {
@@ -23,6 +23,65 @@ func runC19(c *Ctx) {
 	r19_5(c, "R19.5")
 	r19_6(c, "R19.6")
 	r19_7(c, "R19.7")
+	r19_8(c, "R19.8")
+}
+
+// R19.8: the pending-ancestors stack is unwound for every entry.
+//
+// An unselected directory is parked on the stack so that it can be replayed
+// if something below it is selected. It must leave the stack as soon as an
+// entry arrives that is not below it - every entry, also one that has the
+// same parent as its predecessor (the predecessor may be the parked
+// directory itself). So in one iteration the stack top is inspected before
+// anything is pushed or replayed.
+func r19_8(c *Ctx, rule string) {
+	c.R.Rule(rule, "in the receive loop every push onto the pending-ancestors stack and every replay of it is preceded, in the same iteration, by the inspection of the stack top (peek/pop loop)")
+	m := getMetaLoop(c, rule)
+	if m == nil {
+		return
+	}
+	// the stack's methods stay transparent helpers (they are not named here in
+	// full): the explorer walks through them, the calls are recognised by suffix
+	stackCall := func(in ssa.Instruction, suffixes ...string) bool {
+		call, ok := in.(ssa.CallInstruction)
+		if !ok {
+			return false
+		}
+		n := c.P.CalleeName(call)
+		if !strings.Contains(n, "stack") {
+			return false
+		}
+		for _, sfx := range suffixes {
+			if strings.HasSuffix(n, sfx) {
+				return true
+			}
+		}
+		return false
+	}
+	isPeek := func(in ssa.Instruction) bool { return stackCall(in, ".peek", ".pop") }
+	isUse := func(in ssa.Instruction) bool { return stackCall(in, ".push") }
+	np, nu := 0, 0
+	eng.Instrs(m.loop, func(in ssa.Instruction) {
+		if isPeek(in) {
+			np++
+		}
+		if isUse(in) {
+			nu++
+		}
+	})
+	if np == 0 || nu == 0 {
+		c.R.Undecided(rule, c.name(m.loop)+"/unwound-before-push", c.P.Pos(m.loop.Pos()), "the pending-ancestors stack is not used through stack.peek/pop/push: shape not interpreted")
+		return
+	}
+	ok, hit, und := c.Precedes(m.loop, m.recv, nil, isPeek, isUse)
+	switch {
+	case und:
+		c.R.Undecided(rule, c.name(m.loop)+"/unwound-before-push", c.pos(m.recv), "state limit")
+	case !ok:
+		c.R.Fail(rule, c.name(m.loop)+"/unwound-before-push", c.pos(hit.Instr), "an entry can be parked on the pending-ancestors stack without the stack having been unwound for it (the unwinding is skipped for some entries, e.g. when the parent did not change): a parked directory that is not an ancestor is replayed into the destination; path "+eng.BlockTrace(m.loop, hit.Trace))
+	default:
+		c.R.OK(rule, c.name(m.loop)+"/unwound-before-push", c.pos(m.recv), "the stack top is inspected in every iteration before anything is pushed")
+	}
 }
 
 type metaLoop struct {
